@@ -1,6 +1,6 @@
 From Oak Require Import Model.Origin.
 From Coq Require Import ZifyBool.
-Open Scope Z_scope.
+Local Open Scope Z_scope.
 
 Ltac unf := unfold pmin, pmax, contains, overlaps, r_lt, r_le, p_ge, p_gt in *; unfold p_le, p_lt in *.
 
